@@ -3,9 +3,11 @@
     FULL STATEMENT (properties.jsonl): for every proof expression [t] of the DSL, every interpreter
     stack [(b, ls)] and every start state,
         [run b ls axs t tbl s = Some c  <->  static_conc axs t = Some c].
-    It is FALSE of the faithful model of the pinned code for the whole DSL
-    ([C08_refuted_static_instantiate], [C08_refuted_empty_delta]); it is proved for the dynamic DSL
-    (every rule constructor except the static [ProofExp.instantiate]), for ALL stacks of
+    It is FALSE of the faithful model of the code for the whole DSL
+    ([C08_refuted_static_instantiate], D10); it is proved for every proof term without a static
+    [ProofExp.instantiate] that carries plugs ([no_plug_inst]: all other rule constructors, and the
+    static instantiate with an empty delta since the fix of D11, /repo commit 9b6b5b9; the pre-fix
+    behaviour is kept under the named flag [slice0_bug], [C08_prefix_empty_delta_refuted]), for ALL stacks of
     transformers over all five base interpreters, in start states whose memory resolves the term's
     [load_axiom]s and contains only patterns that went through [Interpreter.pattern]; the
     serialising base additionally needs its output to fit the byte format (documented limit of
@@ -18,13 +20,13 @@ Open Scope N_scope.
 (** every interpreter stack returns exactly what [BasicInterpreter] returns, and fails exactly when
     it fails *)
 Theorem C08_interp_agree : forall b ls axs t tbl s c,
-  dynamic t = true -> mem_shape_ok (s_mem s) -> loads_ok t (s_mem s) = true ->
+  no_plug_inst t = true -> mem_shape_ok (s_mem s) -> loads_ok t (s_mem s) = true ->
   (run b ls axs t tbl s = Some c <-> run_basic axs t = Some c /\ out_fits b ls axs t tbl s = true).
 Proof. exact interp_agree. Qed.
 Print Assumptions C08_interp_agree.
 
 Theorem C08_interp_agree_eq : forall b ls axs t tbl s,
-  dynamic t = true -> mem_shape_ok (s_mem s) -> loads_ok t (s_mem s) = true ->
+  no_plug_inst t = true -> mem_shape_ok (s_mem s) -> loads_ok t (s_mem s) = true ->
   run b ls axs t tbl s = if out_fits b ls axs t tbl s then run_basic axs t else None.
 Proof. exact interp_agree_eq. Qed.
 Print Assumptions C08_interp_agree_eq.
@@ -43,14 +45,14 @@ Proof. exact advertised_run. Qed.
 Print Assumptions C08_advertised_runs.
 
 Theorem C08_memo_transparent : forall b ms ls axs t tbl s,
-  dynamic t = true -> mem_shape_ok (s_mem s) -> loads_ok t (s_mem s) = true ->
+  no_plug_inst t = true -> mem_shape_ok (s_mem s) -> loads_ok t (s_mem s) = true ->
   out_fits b (LMemo ms :: ls) axs t tbl s = true -> out_fits b ls axs t tbl s = true ->
   run b (LMemo ms :: ls) axs t tbl s = run b ls axs t tbl s.
 Proof. exact memo_transparent. Qed.
 Print Assumptions C08_memo_transparent.
 
 Theorem C08_instopt_transparent : forall b ls axs t tbl s,
-  dynamic t = true -> mem_shape_ok (s_mem s) -> loads_ok t (s_mem s) = true ->
+  no_plug_inst t = true -> mem_shape_ok (s_mem s) -> loads_ok t (s_mem s) = true ->
   out_fits b (LInstOpt :: ls) axs t tbl s = true -> out_fits b ls axs t tbl s = true ->
   run b (LInstOpt :: ls) axs t tbl s = run b ls axs t tbl s.
 Proof. exact instopt_transparent. Qed.
@@ -76,17 +78,24 @@ Theorem C08_refuted_static_instantiate :
 Proof. exists w_static_inst, (s_proof []), (Imp (phi 1) (Imp (phi 1) (phi 1))). vm_compute. repeat split. Qed.
 Print Assumptions C08_refuted_static_instantiate.
 
-(** D11: [StatefulInterpreter.instantiate(p, {})] slices [stack[-0:]]: with anything below the
-    proof on the stack the stateful family fails, Basic returns [p], and so does any stack with an
-    [InstantiationOptimizer] *)
+(** D11 (FIXED in /repo by commit 9b6b5b9): before the fix [StatefulInterpreter.instantiate(p, {})]
+    sliced [stack[-0:]]: with anything below the proof on the stack it failed while Basic returned
+    [p].  The pre-fix code is [st_inst true]; the current code is [st_inst false] = [st_step (CInst _ _)]. *)
 Definition w_empty_delta : pterm := PInst PProp1 [].
-Theorem C08_refuted_empty_delta :
-  exists t s c, static_conc [] t = Some c /\ loads_ok t (s_mem s) = true /\ s_mem s = [] /\
-    run BBasic [] [] t [] s = Some c /\
-    run BStateful [] [] t [] s = None /\ run BSerializing [] [] t [] s = None /\
-    run BStateful [LInstOpt] [] t [] s = Some c.
-Proof. exists w_empty_delta, (s_proof [TPat (EVar 0)]), py_prop1. vm_compute. repeat split. Qed.
-Print Assumptions C08_refuted_empty_delta.
+Theorem C08_prefix_empty_delta_refuted :
+  exists c s, st_inst true c [] s = None /\ st_inst false c [] s = st_step (CInst c []) s /\
+              st_step (CInst c []) s = Some s /\ run_basic [] w_empty_delta = Some c.
+Proof. exists py_prop1, (s_proof [TProved py_prop1; TPat (EVar 0)]). vm_compute. repeat split. Qed.
+Print Assumptions C08_prefix_empty_delta_refuted.
+
+(** regression: the former D11 witness now agrees on every base, as [C08_interp_agree] says *)
+Example C08_empty_delta_agrees :
+  let s := s_proof [TPat (EVar 0)] in
+  no_plug_inst w_empty_delta = true /\
+  run BBasic [] [] w_empty_delta [] s = Some py_prop1 /\ run BStateful [] [] w_empty_delta [] s = Some py_prop1 /\
+  run BSerializing [] [] w_empty_delta [] s = Some py_prop1 /\ run BCounting [] [] w_empty_delta [] s = Some py_prop1 /\
+  run BPretty [] [] w_empty_delta [] s = Some py_prop1 /\ run BStateful [LInstOpt] [] w_empty_delta [] s = Some py_prop1.
+Proof. vm_compute. repeat split. Qed.
 
 (** the documented byte-range limit is a real hypothesis: outside it the serialiser alone fails *)
 Example C08_out_fits_needed :
@@ -103,7 +112,7 @@ Definition ex_ax : pat := Imp (Sym 7) (Sym 9).
 Definition ex_term : pterm := PMP (PDynInst PProp1 [(0, Imp ex_ax ex_ax); (1, Sym 7)]) (t_imp_refl ex_ax).
 Definition ex_state : sstate := mksst [TPat (EVar 3)] [TProved ex_ax] [] Proof.
 Example C08_hypotheses_satisfiable :
-  dynamic ex_term = true /\ loads_ok ex_term (s_mem ex_state) = true /\
+  no_plug_inst ex_term = true /\ loads_ok ex_term (s_mem ex_state) = true /\
   out_fits BSerializing [LMemo [ex_ax; Sym 7]] [ex_ax] ex_term [] ex_state = true /\
   run BSerializing [LMemo [ex_ax; Sym 7]] [ex_ax] ex_term [] ex_state
     = Some (Imp (Sym 7) (Imp ex_ax ex_ax)) /\
